@@ -434,3 +434,175 @@ _cpw = Contract(
     note='C11.writer.cp: CP.level holds one line per transition of every prefix, in iteration order: its level, TAB, prefix + letter, LF',
 )
 _cpw.slice = ('full_path = os.path.join(omen_directory, "CP.level")', 2)
+
+
+# =============================================================================================== guesser: _load_length (LN.level) and _load_config
+LVL_INTS = TDict(TInt, LINT)
+GRAM_LN = TRec({'max_level': TInt, 'ln': LVL_INTS})
+
+
+def _empty_lint():
+    from pyvc.engine import empty_list
+    return empty_list(LINT)
+
+
+def appi(lst, x):
+    return LINT.mk(LINT.len(lst) + 1, z3.Store(LINT.arr(lst), LINT.len(lst), x))
+
+
+LnLens = SpecFun('OmenLnLens', [LSTR.sort(), T.IntS, T.IntS, T.IntS], LINT.sort(),
+                 lambda L, k, l, m: z3.If(k <= 0, _empty_lint(),
+                                          z3.If(z3.And(ln_line_level(line_at(L, k - 1)) == l, k >= m), appi(LnLens(L, k - 1, l, m), k - (m - 1)), LnLens(L, k - 1, l, m))),
+                 doc='for the first k lines of LN.level (line k = password length k): the lengths >= min_size whose level is l, as numbers of transitions k - (min_size - 1)',
+                 quantified=True)
+
+
+def ln_table(tab, L, k, max_level, m):
+    l = z3.Int('l!ln')
+    return [('keys', z3.ForAll([l], LVL_INTS.has(tab, l) == z3.And(0 <= l, l <= max_level), patterns=[LVL_INTS.has(tab, l)])),
+            ('vals', z3.ForAll([l], z3.Implies(z3.And(0 <= l, l <= max_level), LVL_INTS.get(tab, l) == LnLens(L, k, l, m)),
+                               patterns=[LnLens(L, k, l, m), LVL_INTS.get(tab, l)]))]
+
+
+def wf_ln(L, max_level):
+    k = z3.Int('k!wn')
+    line = line_at(L, k)
+    return z3.ForAll([k], z3.Implies(z3.And(0 <= k, k < LSTR.len(L)), z3.And(B.s_isint(rstrip_nl(line)), 0 <= ln_line_level(line), ln_line_level(line) <= max_level)),
+                     patterns=[line_at(L, k)])
+
+
+def _ln_init(L):
+    l = z3.Int('l!li')
+    tab = L.grammar.fields['ln'].term
+    return [('levels_so_far', z3.ForAll([l], z3.And(LVL_INTS.has(tab, l) == z3.And(0 <= l, l < L.i),
+                                                    z3.Implies(z3.And(0 <= l, l < L.i), LVL_INTS.get(tab, l) == _empty_lint())),
+                                        patterns=[LVL_INTS.has(tab, l), LVL_INTS.get(tab, l)])),
+            ('max_level_kept', L.grammar.fields['max_level'].term == L.entry.args['grammar'].fields['max_level'].term)]
+
+
+Contract(
+    IO + ':_load_length',
+    params={'base_directory': TStr, 'filename': TStr, 'grammar': GRAM_LN, 'name': TStr, 'min_size': TInt},
+    requires=lambda c: [('max_level', c.grammar.fields['max_level'].term >= 0), ('min_size', c.min_size.term >= 1),
+                        ('wf_lines', wf_ln(B.fs_lines(path_of(c)), c.grammar.fields['max_level'].term))],
+    cases=[Case('loaded', lambda c: PNone(),
+                lambda c: ln_table(c.after['grammar'].fields['ln'].term, B.fs_lines(path_of(c)), LSTR.len(B.fs_lines(path_of(c))),
+                                   c.grammar.fields['max_level'].term, c.min_size.term) +
+                [('max_level_kept', c.after['grammar'].fields['max_level'].term == c.grammar.fields['max_level'].term)])],
+    mutates=('grammar',),
+    loops={0: LoopSpec(fingerprint="for level in range(0,grammar['max_level']+1)", inv=_ln_init),
+           1: LoopSpec(fingerprint='for line in file',
+                       inv=lambda L: ln_table(L.grammar.fields['ln'].term, B.fs_lines(path_of(L.entry)), L.i, L.entry.args['grammar'].fields['max_level'].term,
+                                              L.entry.args['min_size'].term) +
+                       [('cursor', L.cur_length.term == L.i + 1),
+                        ('max_level_kept', L.grammar.fields['max_level'].term == L.entry.args['grammar'].fields['max_level'].term)])},
+    raises=('IOError', 'ValueError', 'Exception'),
+    note="C11/C18.loader.ln: grammar['ln'][l] lists, in order, every password length k >= min_size (the n-gram size) whose LN.level line k has level l, as the "
+         'number of transitions k - (min_size - 1); shorter lengths are dropped',
+).variants = [{'name': zstr('ln')}]
+
+
+# ---- _load_config: ConfigParser.read(path) modelled here (read_file is in pyvc.builtins)
+def _cfg_read(eng, e, st, args, kw):
+    """config.read(path): the parser holds the options of that file afterwards (a missing file leaves it empty; not distinguished here)"""
+    from pyvc.engine import box
+    obj, path = args[0], args[1]
+    B._use(eng, 'ConfigParser.read(path) loads fs_config(path)')
+    new = ZV(B.CONFIG_OPTS, B.fs_config(box(path, TStr)))
+    eng.assign(e.func.value, obj.with_field('opts', new), st)
+    return PNone()
+
+
+def install_config(eng):
+    eng.builtins[B.CONFIG_CLS + '.read'] = _cfg_read
+
+
+GRAM_CFG = TRec({'alphabet_encoding': TStr, 'ngram': TInt, 'max_level': TInt})
+K_ENC = B.CONFIG_KEY.mk(T.str_lit('training_settings'), T.str_lit('encoding'))
+K_NGRAM = B.CONFIG_KEY.mk(T.str_lit('training_settings'), T.str_lit('ngram'))
+
+
+def _cfg_ensures(c):
+    opts = B.fs_config(path_of(c))
+    g1 = c.after['grammar']
+    return [('ngram_is_the_saved_ngram_option', g1.fields['ngram'].term == B.s_toint(B.CONFIG_OPTS.get(opts, K_NGRAM))),
+            ('encoding_is_the_saved_encoding_option', g1.fields['alphabet_encoding'].term == B.CONFIG_OPTS.get(opts, K_ENC)),
+            ('max_level', g1.fields['max_level'].term == 10)]
+
+
+Contract(
+    IO + ':_load_config',
+    params={'base_directory': TStr, 'filename': TStr, 'grammar': GRAM_CFG},
+    requires=lambda c: [('options_present', z3.And(B.CONFIG_OPTS.has(B.fs_config(path_of(c)), K_ENC), B.CONFIG_OPTS.has(B.fs_config(path_of(c)), K_NGRAM)))],
+    ensures=_cfg_ensures,
+    mutates=('grammar',),
+    raises=('IOError', 'configparser.Error'),
+    note="C11.loader.config: the guesser's n-gram size and encoding are the options 'ngram' and 'encoding' of section training_settings of Omen/config.txt "
+         '(the options the trainer writes), max_level is 10',
+)
+
+
+# ---- trainer: _save_config writes the options the guesser's _load_config reads
+PINFO = TRec({'ngram': TInt, 'encoding': TStr})
+
+
+def _sc_ok(c):
+    from pyvc.engine import ZV as _ZV
+    if not (isinstance(c.result, _ZV) and c.result.shape == TBool) or c.result.pyval is False:
+        return None
+    disk = c.after['$disk'].term
+    return [('ngram_option', z3.And(B.CONFIG_OPTS.has(disk, K_NGRAM), B.CONFIG_OPTS.get(disk, K_NGRAM) == T.sofint(c.program_info.fields['ngram'].term))),
+            ('encoding_option', z3.And(B.CONFIG_OPTS.has(disk, K_ENC), B.CONFIG_OPTS.get(disk, K_ENC) == c.program_info.fields['encoding'].term))]
+
+
+Contract(
+    OFO + ':_save_config',
+    params={'file_name': TStr, 'directory': TStr, 'program_info': PINFO, '$disk': B.CONFIG_OPTS},
+    cases=[Case('saved', lambda c: zbool(True), _sc_ok),
+           Case('io_error', lambda c: zbool(False), lambda c: None if c.result.pyval is True else [('reported', z3.BoolVal(True))])],
+    raises=(),
+    note="C11.writer.config: Omen/config.txt holds training_settings.ngram = str(n-gram size) and training_settings.encoding = the ruleset's encoding",
+)
+
+
+# =============================================================================================== scorer: lib_scorer.grammar_io._load_from_file
+import contracts.guesser_loader as gld     # noqa: E402  (fields of a terminal line: rstrip() then split on TAB)
+SGIO = 'lib_scorer.grammar_io'
+PROBMAP = TDict(TStr, T.TF, counter=True)
+
+HasVal = SpecFun('ScorerHasVal', [LSTR.sort(), T.IntS, T.Str], z3.BoolSort(),
+                 lambda L, k, s: z3.If(k <= 0, z3.BoolVal(False), z3.Or(HasVal(L, k - 1, s), gld.F0(line_at(L, k - 1)) == s)),
+                 doc='some of the first k lines lists the value s', quantified=True)
+LastProb = SpecFun('ScorerLastProb', [LSTR.sort(), T.IntS, T.Str], T.F,
+                   lambda L, k, s: z3.If(k <= 0, T.F_ZERO, z3.If(gld.F0(line_at(L, k - 1)) == s, B.s_tofloat(gld.F1(line_at(L, k - 1))), LastProb(L, k - 1, s))),
+                   doc='the probability on the last of the first k lines that lists the value s', quantified=True)
+
+
+def prob_map(tab0, tab, L, k):
+    s = z3.Const('s!pm', T.Str)
+    return z3.ForAll([s], z3.And(PROBMAP.has(tab, s) == z3.Or(PROBMAP.has(tab0, s), HasVal(L, k, s)),
+                                 z3.Implies(HasVal(L, k, s), PROBMAP.get(tab, s) == LastProb(L, k, s)),
+                                 z3.Implies(z3.Not(HasVal(L, k, s)), PROBMAP.get(tab, s) == PROBMAP.get(tab0, s))),
+                     patterns=[PROBMAP.has(tab, s), HasVal(L, k, s), PROBMAP.get(tab, s)])
+
+
+def _slf_ok(c):
+    if not (isinstance(c.result, ZV) and c.result.shape == TBool) or c.result.pyval is False:
+        return None
+    L = B.fs_lines(c.filename.term)
+    return [('every_value_with_its_probability', prob_map(c.grammar_counter.term, c.after['grammar_counter'].term, L, LSTR.len(L)))]
+
+
+Contract(
+    SGIO + ':_load_from_file',
+    params={'grammar_counter': PROBMAP, 'filename': TStr, 'encoding': TStr},
+    requires=lambda c: [('wf_lines', gld.wf_value_lines(B.fs_lines(c.filename.term)))],
+    cases=[Case('loaded', lambda c: zbool(True), _slf_ok),
+           Case('failed', lambda c: zbool(False), lambda c: None if c.result.pyval is True else [('reported', z3.BoolVal(True))])],
+    mutates=('grammar_counter',),
+    loops={0: LoopSpec(fingerprint='for value in file',
+                       inv=lambda L: [('values_so_far', prob_map(L.entry.args['grammar_counter'].term, L.grammar_counter.term, B.fs_lines(L.entry.args['filename'].term), L.i))])},
+    raises=(),
+    note="C07.scorer.reader: the scorer's table maps every value listed in the file (first field, line terminator and trailing blanks of the LINE removed by rstrip()) "
+         'to float of the second field of its last line; entries of other values are untouched',
+)
